@@ -32,6 +32,7 @@ package main
 import (
 	"errors"
 	"fmt"
+	"os"
 	"strconv"
 	"strings"
 	"sync"
@@ -62,6 +63,10 @@ func genC24(r *Rand, n int, tier string, emit func(string)) {
 			return 65536
 		case 4:
 			return int64(r.EdgeU64() >> 1)
+		case 6:
+			return 65536 + int64(r.Intn(20)) // would wrap to a small count if converted unchecked
+		case 7:
+			return int64(65536*(1+r.Intn(3))) + int64(1+r.Intn(10))
 		case 5:
 			return -int64(r.EdgeU64() >> 1)
 		default:
@@ -94,7 +99,13 @@ func genC24(r *Rand, n int, tier string, emit func(string)) {
 		if r.Chance(1, 2) {
 			sb.WriteString("srv")
 			steps := 1 + r.Intn(10)
-			big := r.Chance(1, 40) // at most one oversized reply per history, rare (2.8 MB each)
+			big := r.Chance(1, 20) // at most one oversized reply per history, rare (2.8 MB each)
+			if r.Chance(1, 8) {
+				// a conversation that ends with ids still to be acknowledged, then a new one:
+				// the first request after the restart must acknowledge nothing
+				fmt.Fprintf(&sb, " %s:%d:%d b:%d:done %s:%d:%d", Pick(r, "b", "n"), 1+r.Intn(20), 1+r.Intn(9),
+					1+r.Intn(10), Pick(r, "b", "n"), 1+r.Intn(20), r.Intn(9))
+			}
 			for j := 0; j < steps; j++ {
 				switch r.Intn(8) {
 				case 0:
@@ -111,6 +122,9 @@ func genC24(r *Rand, n int, tier string, emit func(string)) {
 					k := replyLen(req, big)
 					if k > 60000 {
 						big = false
+						// a multi-megabyte reply must not race the 10 s TxIdsNonBlocking
+						// state timeout on a loaded machine: ask for it with a blocking request
+						bl = "b"
 					}
 					fmt.Fprintf(&sb, " %s:%d:%d", bl, req, k)
 				}
@@ -356,6 +370,9 @@ func runC24Srv(steps []string) string {
 			res := strconv.Itoa(r.n)
 			if r.err != nil {
 				res = c24ErrTok(r.err)
+				if res == "S" && os.Getenv("G5_DEBUG") != "" {
+					res += "[" + strings.ReplaceAll(l.firstErr(time.Second), " ", "_") + "]"
+				}
 			}
 			out = append(out, fmt.Sprintf("w%d/%d/%s>%s", wAck, wReq, bn, res))
 			if done {
